@@ -24,10 +24,10 @@ const TwinSuffix = "__d"
 type Walker struct {
 	// Requires: "Type.field" -> names of the fields its @requires selection lists
 	Requires map[string][]string
-	S     *fedlab.Schema
-	Op    *Op
-	P     map[string]bool
-	frags map[string]*fedlab.FragDef
+	S        *fedlab.Schema
+	Op       *Op
+	P        map[string]bool
+	frags    map[string]*fedlab.FragDef
 	// PlanIdx: response key path ("/a/b", list levels transparent) -> "Parent.field" of the plan's
 	// fields at that path (FieldInfo.ExactParentTypeName + Name).  Used only to tell which of the
 	// two plan-time readings of an occurrence on an abstract type the planner produced: the
@@ -226,21 +226,21 @@ func PathString(p []PathEl) string {
 
 // Analysis of one (operation, shadow response, mode, decisions).
 type Analysis struct {
-	Denied        [][]PathEl      // topmost denied positions, in walk order
-	DeniedCoords  []string        // the denied coordinate of each (mode-appropriate)
-	Effective     int             // denied positions whose undenied value is non-null
-	Mixed         bool            // some position merges occurrences that disagree on protection / denial
-	MultiCoord    bool            // some protected position merges occurrences with different plan-time coordinates
-	Seen          map[string]bool // plan-time protected coordinates of the occurrences at visited positions
-	Domain        map[string]bool // coordinates the authorizer can be asked about for this response (both modes)
-	Forbidden     []string        // sentinels under denied positions that occur at no allowed position
-	Positions     int
-	Protected     int // visited positions that carry a rule
-	AbstractProt  int // ... whose enclosing (plan-time) type is abstract
-	TwoPathProt   int // ... reached through more than one occurrence
-	Dependent     [][]PathEl // allowed positions whose field @requires a field that is denied (pre-fetch mode)
-	underDenied   map[string]bool
-	legit         []string
+	Denied       [][]PathEl      // topmost denied positions, in walk order
+	DeniedCoords []string        // the denied coordinate of each (mode-appropriate)
+	Effective    int             // denied positions whose undenied value is non-null
+	Mixed        bool            // some position merges occurrences that disagree on protection / denial
+	MultiCoord   bool            // some protected position merges occurrences with different plan-time coordinates
+	Seen         map[string]bool // plan-time protected coordinates of the occurrences at visited positions
+	Domain       map[string]bool // coordinates the authorizer can be asked about for this response (both modes)
+	Forbidden    []string        // sentinels under denied positions that occur at no allowed position
+	Positions    int
+	Protected    int        // visited positions that carry a rule
+	AbstractProt int        // ... whose enclosing (plan-time) type is abstract
+	TwoPathProt  int        // ... reached through more than one occurrence
+	Dependent    [][]PathEl // allowed positions whose field @requires a field that is denied (pre-fetch mode)
+	underDenied  map[string]bool
+	legit        []string
 }
 
 func collectStrings(j *fedlab.J, out map[string]bool) {
